@@ -492,6 +492,21 @@ pub fn sample_classes() -> Vec<(String, Value)> {
 		{"bsm": bsm_handle(), "args": [{"dynamic": {"bsm": bsm_handle(), "args": [{"int": 99}], "name": "only_here", "desc": "I"}}, {"string": "s"}]},
 		{"bsm": bsm_handle(), "args": []},
 	]})));
+	// dynamic constants nested as deep as the reader's documented limit lets them (64 below one another): below an
+	// invokedynamic call site and below an ldc - a well-formed class either way
+	{
+		let mut chain = json!({"dynamic": {"bsm": bsm_handle(), "args": [{"int": 7}], "name": "c0", "desc": "I"}});
+		for i in 1..64 { chain = json!({"dynamic": {"bsm": bsm_handle(), "args": [chain], "name": format!("c{i}"), "desc": "I"}}); }
+		let mut site = indy_value();
+		site["args"] = json!([chain.clone()]);
+		site["bsm"] = bsm_handle();
+		add("indy_condy_chain_64", simple_class("k/DynChain", vec![method_with_code(0x9, "m", "()V", code(2, 0, vec![
+			json!({"op": "invokedynamic", "indy": site.clone()}), op("pop"),
+			json!({"op": "invokedynamic", "indy": site}), op("pop"),
+			json!({"op": "ldc", "const": chain}), op("pop"),
+			op("return"),
+		], vec![], json!({})))], json!({})));
+	}
 	add("empty_bootstrap_methods", simple_class("k/Ebm", vec![], json!({"unreferenced_bootstrap": []})));
 	add("odd_strings", class([61, 0], 0x21, "k/Odd\u{0}\u{e9}\u{20ac}\u{1f600}", Some(OBJ),
 		vec![member(0x2, "", "I", json!({})), member(0x2, "\u{0}", "I", json!({})), json!({"access": 2, "name": {"utf16": [0xd83d]}, "desc": "I", "attrs": {}})],
